@@ -53,6 +53,8 @@ def mk_case(file, cls, kind, tags, inc=False, low=None, med=None):
 
 def case_src(c):
     """the .py text of a case; "functions" = plain module-level functions of the file (no class, no import: invisible to Class/CBO.v)"""
+    if "src" in c:
+        return c["src"]
     src = cg.file_src(c["file"], c["cls"])
     for fn in c.get("functions") or []:
         src += "\n\ndef %s(*args, **kwargs):\n    return None\n" % fn
@@ -83,6 +85,7 @@ ASSIGN_LIKE = ["PAssignValue", "PAugAssignValue", "PAnnAssignValue", "PAttrAssig
                "PSubscriptAssignValue", "PChainAssignValue", "PTupleAssignValue", "PReturnValue", "PBody", "PClassAssignValue", "PClassBody",
                "PYieldValue", "PWalrusValue"]
 HOSTS = ["counted", "counted_local", "function", "selfcall", "builtin"]
+ASSIGN_LIKE_M = [p for p in ASSIGN_LIKE if cg.POS[p][1] == "m"]
 
 
 def host_kind(host):
@@ -256,7 +259,10 @@ def rand_class(rng, allow_qualified=True):
                 if cg.POS[m[1]][1] == "c":
                     m = (m[0], "PBody") + tuple(m[2:])
                 body.append(m)
-            members.append(("method", dict(name="m%d" % j, decos=rng.choice([[], [], ["property"], ["staticmethod"], ["classmethod"]]),
+            prev = [m[1]["name"] for m in members if m[0] == "method"]
+            # now and then a second / third def of a name the class already has (redefinition)
+            mname = rng.choice(prev) if prev and rng.random() < 0.25 else "m%d" % j
+            members.append(("method", dict(name=mname, decos=rng.choice([[], [], ["property"], ["staticmethod"], ["classmethod"]]),
                                            params=[rty() if rng.random() < 0.5 else None for _ in range(rng.randint(0, 2))],
                                            ret=rty() if rng.random() < 0.4 else None, body=body)))
     bases = [rref() for _ in range(rng.randint(0, 2))]
@@ -496,6 +502,176 @@ def builtin_named_cases(rng, types, functions):
                 if (k + j) % 6 == 0 or form in PLAIN_FORMS:
                     out.append(mk_case(f, cls, "builtin-named", dict(tg, inc=True), inc=True))
     return out
+
+
+# ------------------------------------------------------------------------------------------
+# several function definitions sharing ONE name inside the class subtree.  Class/CBO.v reads the signature and the body of every
+# def whatever it is called (md_name is not looked at), and so does the property: a class named in the signature / default /
+# body of ANY of them is a coupled class.  Forms: @property getter + @x.setter (+ @x.deleter), @overload stubs + implementation,
+# plain redefinition, same-named local helper functions inside different methods, __init__ of the class and of nested
+# classes, same-named methods of nested classes.  One otherwise-unmentioned project class sits in one coupling position
+# (parameter annotation, return annotation, default value, body instantiation, method call on the name, base class) of the
+# FIRST / MIDDLE / LAST of the 2 or 3 same-named defs; every order of the members that hold the defs is generated.
+# A helper nested in a method / a method of a nested class reaches Coq flattened into a method of K itself (the walk of cbo.go
+# and the spec go through the whole class subtree); the .py text keeps the nesting.
+# ------------------------------------------------------------------------------------------
+SN_FORMS = ["property", "overload", "redefinition", "local-helpers", "init-nested", "nested-methods"]
+SN_POSITIONS = ["param", "return", "default", "body", "attr"]
+SN_BODY_POS = [p for p in EXPR_POS if cg.POS[p][1] == "m"]
+
+
+def sn_shapes(ref):
+    r = ("ref", ref)
+    return [("plain", r), ("gen1", ("gen1", "List", r)), ("optional", ("gen1", "Optional", r)), ("gen2", ("gen2", "Dict", ("ref", ("", "str")), r)),
+            ("union_none", ("union", r, ("none",))), ("lower_generic", ("gen1", "list", r)), ("generic_in_union", ("union", ("gen1", "List", r), ("none",))),
+            ("qualified_container", ("gen1", "typing.List", r))]
+
+
+def sn_def_lines(md, nested_in_function=False):
+    rcv = None if (nested_in_function or "staticmethod" in md["decos"]) else ("cls" if "classmethod" in md["decos"] else "self")
+    params = [("p%d" % i, cg.ty_src(t) if t else None) for i, t in enumerate(md["params"])]
+    return cg.render_method(md["name"], md["decos"], params, cg.ty_src(md["ret"]) if md["ret"] else None,
+                            [(m[1], cg.mention_src(m)) for m in md["body"]], first=rcv, is_async=md.get("async", False))
+
+
+def sn_unit_lines(u):
+    """source lines (class-body level) of one member unit"""
+    if u[0] == "attr":
+        return ["%s: %s" % (u[1], cg.ty_src(u[2]))]
+    if u[0] == "def":
+        return sn_def_lines(u[1]) + [""]
+    if u[0] == "host":
+        lines = sn_def_lines(u[1])
+        if not any(cg.POS[m[1]][1] == "m" for m in u[1]["body"]):
+            lines.pop()                                  # the lone `pass`
+        return lines + ["    " + l for l in sn_def_lines(u[2], nested_in_function=True)] + [""]
+    lines = ["class %s:" % u[1]]
+    for md in u[2]:
+        lines += ["    " + l for l in sn_def_lines(md)] + [""]
+    return lines
+
+
+def sn_unit_members(u):
+    """the unit as members of K in the class-level syntax (nesting flattened)"""
+    if u[0] == "attr":
+        return [u]
+    if u[0] == "def":
+        return [("method", u[1])]
+    if u[0] == "host":
+        return [("method", u[1]), ("method", u[2])]
+    return [("method", md) for md in u[2]]
+
+
+def sn_source(f, name, bases, units):
+    out = []
+    for i in f["imports"]:
+        out.append({"from": "from lib import %s", "fromas": "from lib import %s as %s", "mod": "import %s", "modas": "import %s as %s"}[i[0]] % tuple(i[1:]))
+    out.append("")
+    for n in f["classes"]:
+        out += ["class %s:" % n, "    pass", ""]
+    out.append("class %s%s:" % (name, ("(" + ", ".join(cg.cref_src(b) for b in bases) + ")") if bases else ""))
+    for u in units:
+        out += ["    " + l if l else "" for l in sn_unit_lines(u)]
+    return "\n".join(out) + "\n"
+
+
+def sn_units(form, n, mds, k):
+    """the n same-named defs mds (name / decorators filled in here) wrapped into the member units of the form; returns (units, imports)"""
+    imps = []
+    units = []
+    for j, md in enumerate(mds):
+        if form == "property":
+            md.update(name="value", decos=[["property"], ["value.setter"], ["value.deleter"]][j])
+            units.append(("def", md))
+        elif form == "overload":
+            qual = k % 2 == 0
+            imps = [("mod", "typing")] if qual else [("fromas", "overload", "overload")]
+            md.update(name="convert", decos=[] if j == n - 1 else ["typing.overload" if qual else "overload"])
+            units.append(("def", md))
+        elif form == "redefinition":
+            md.update(name="handle", decos=[[], [], ["staticmethod"], ["classmethod"]][(k + j) % 4])
+            if (k + j) % 3 == 1:
+                md["async"] = True
+            units.append(("def", md))
+        elif form == "local-helpers":
+            md.update(name="helper", decos=[])
+            own = [(("attr", "self", "state"), "PAssignTarget")] if (k + j) % 2 else []
+            units.append(("host", dict(name="step%d" % j, decos=[], params=[], ret=None, body=own), md))
+        elif form == "init-nested":
+            md.update(name="__init__", decos=[])
+            units.append(("def", md) if j == 0 else ("class", "Inner%d" % j, [md]))
+        else:
+            md.update(name="run", decos=[])
+            units.append(("class", "Part%d" % j, [md]))
+    return units, imps
+
+
+def samename_cases():
+    """(cases, groups): groups = lists of case indexes that are the SAME class with its members permuted"""
+    import itertools
+    out, groups = [], []
+    k = 0
+    for form in SN_FORMS:
+        for n in (2, 3):
+            for pos, i in [(p, i) for i in range(n) for p in SN_POSITIONS] + [("base", None)]:
+                k += 1
+                eforms = ["from", "fromas"] if pos == "attr" else ["from", "fromas", "local", "mod", "modas"]
+                eform = eforms[k % len(eforms)]
+                imps, classes, ref = form_ref(eform, "Extra", "K")
+                others = ("typed", "bare", "first-typed")[k % 3]
+                mds, bases = [], []
+                sname = None
+                for j in range(n):
+                    md = dict(params=[], ret=None, body=[])
+                    if others == "typed" or (others == "first-typed" and j == 0):
+                        md["params"] = [("ref", ("", "Sig%d" % j))]
+                        if (k + j) % 2:
+                            md["ret"] = ("gen1", "Optional", ("ref", ("", "Ret%d" % j)))
+                        imps = imps + [("from", "Sig%d" % j)] + ([("from", "Ret%d" % j)] if md["ret"] else [])
+                    if j == i:
+                        sname, t = sn_shapes(ref)[k % len(sn_shapes(ref))]
+                        if pos == "param":
+                            md["params"] = md["params"] + [t] if k % 2 else [t] + md["params"]
+                        elif pos == "return":
+                            md["ret"] = t
+                        elif pos == "default":
+                            md["body"].append((("inst", ref), "PMethodDefault"))
+                        elif pos == "body":
+                            bpos = SN_BODY_POS[(k * 7) % len(SN_BODY_POS)]
+                            if k % 4 == 0:
+                                md["body"].append((("inst", ("", "make_host")), ASSIGN_LIKE_M[k % len(ASSIGN_LIKE_M)], [(cg.SLOTS[k % len(cg.SLOTS)], (("inst", ref), []))]))
+                            else:
+                                md["body"].append((("inst", ref), bpos))
+                        elif pos == "attr":
+                            md["body"].append((("call", ref[1], "run"), ASSIGN_LIKE_M[k % len(ASSIGN_LIKE_M)]))
+                    mds.append(md)
+                if pos == "base":
+                    bases = [ref]
+                units, fimps = sn_units(form, n, mds, k)
+                f = dict(imports=imps + fimps + [("from", "FieldT")], classes=classes)
+                noise = ("attr", "field", ("ref", ("", "FieldT")))
+                # the number of coupled classes by construction: only used to PLACE the thresholds at / next to the count
+                cnt = len({"FieldT", "Extra"} | {r[1] for md in mds for t in md["params"] + [md["ret"]] if t for r in cg.ty_refs(t) if r[1] != "str"})
+                thr = [(None, None), (cnt - 1, cnt), (cnt, cnt + 1), (cnt - 2, cnt - 1)][k % 4]
+                if thr[0] is not None:
+                    thr = (max(0, thr[0]), max(0, thr[1]))
+                which = None if i is None else ("first" if i == 0 else "last" if i == n - 1 else "middle")
+                group = []
+                for perm in itertools.permutations(range(n)):
+                    us = [units[j] for j in perm]
+                    us.insert(k % (n + 1), noise)
+                    members = [m for u in us for m in sn_unit_members(u)]
+                    tags = {"position": pos if pos in ("base", "param", "return") else (mds[i]["body"][-1][1] if i is not None else pos), "form": eform,
+                            "samename": form, "defs": n, "which": which, "place": pos, "order": list(perm), "others": others}
+                    if sname and pos in ("param", "return"):
+                        tags["shape"] = sname
+                    c = mk_case(f, dict(name="K", bases=bases, members=members), "samename", tags, low=thr[0], med=thr[1])
+                    c["src"] = sn_source(f, "K", bases, us)
+                    group.append(len(out))
+                    out.append(c)
+                groups.append(group)
+    return out, groups
+
 
 
 def threshold_cases():
@@ -1044,6 +1220,10 @@ def main(tier):
     for c in annotation_matrix()[::7] + position_matrix()[7::23]:
         c = dict(c, inc=True)
         cases.append(c)
+    # several defs sharing one name in the class subtree, every member order
+    sn_cases, sn_groups = samename_cases()
+    sn_groups = [[len(cases) + i for i in g] for g in sn_groups]
+    cases += sn_cases
     meta = []       # (base index, [variant indexes with relation])
     for _ in range(n_rand):
         f, c = rand_class(rng, allow_qualified=rng.random() < 0.5)
@@ -1149,6 +1329,21 @@ def main(tier):
                 ck.violation("law '%s' broken: CBO %d %s became %d %s, expected %d %s" % (label, b["cbo"], b["deps"], v["cbo"], v["deps"], wantn, want),
                              {"kind": "metamorphic:" + label, "source": reqs[bi]["src"], "variant_source": reqs[vi]["src"], "impl": b, "impl_variant": v})
 
+    # --- permuting the members of a class (same-named defs among them) leaves the set of coupled classes unchanged
+    n_perm_bad = 0
+    for g in sn_groups:
+        rs = [(i, results[i]) for i in g if results[i] is not None]
+        for i, v in rs[1:]:
+            n_meta += 1
+            b = rs[0][1]
+            if (v["cbo"], v["deps"], v["risk"]) != (b["cbo"], b["deps"], b["risk"]):
+                n_perm_bad += 1
+                if n_perm_bad <= 3:
+                    ck.violation("law 'permute the members of the class' broken: CBO %d %s (%s) with the members in one order, %d %s (%s) in another [%s]"
+                                 % (b["cbo"], b["deps"], b["risk"], v["cbo"], v["deps"], v["risk"], cases[i]["tags"]),
+                                 {"kind": "metamorphic:permute-members", "tags": cases[i]["tags"], "source": reqs[rs[0][0]]["src"], "variant_source": reqs[i]["src"],
+                                  "impl": b, "impl_variant": v})
+
     n_mf = 0
     try:
         n_mf, bad_mf = check_multifile(ck, projs, mf_index, results, model)
@@ -1189,7 +1384,12 @@ def main(tier):
         "rule": "position x import-form matrix (one instantiation per class), nested matrix (an instantiation hidden in the argument list of another call: "
                 "host kind x argument slot x statement context, full cross for assignment-like contexts, depth up to 4, one-more-argument pairs), base/annotation form x shape x place matrix, "
                 "project classes NAMED like a built-in (every name of cbo.go's regenerated built-in type table and some of its function table: written through a module - import m / import m as a / unimported qualifier - as base, in an annotation (place and shape rotate) and instantiated (position rotates over all expression positions, and hidden in an argument slot): counted under the dotted name; written bare after from-import / import-as / a same-file class of that name: the built-in by name; include_builtins false and true), "
-                "threshold lattice (0..10 dependencies x 10 threshold pairs), random classes with 5 metamorphic variants each "
+                "several function definitions sharing ONE name inside the class subtree (@property getter + @x.setter + @x.deleter, @overload stubs + implementation, plain redefinition - also async / static / class method -, "
+                "same-named local helper functions inside different methods, __init__ of the class and of nested classes, same-named methods of nested classes; 2 and 3 defs) with one otherwise-unmentioned project class "
+                "(import form rotates) in one coupling position (parameter annotation, return annotation - shape rotates -, default value, body instantiation at a rotating position / hidden in an argument, method call on the name, base class) "
+                "of the FIRST / MIDDLE / LAST def, the other defs bare / typed with classes of their own, in EVERY order of the members holding the defs, thresholds placed at / next to the count: "
+                "decided against Class/CBO.v (nested defs and nested-class methods flattened into methods of the class) and by the law that permuting the members leaves count, set and risk unchanged, "
+                "threshold lattice (0..10 dependencies x 10 threshold pairs), random classes (a quarter of the methods re-use the name of an earlier method) with 5 metamorphic variants each "
                 "(repeat, reorder, rename self, add unrelated, add one coupled class - also one living in another module and named like a built-in type), built-ins included (every position x built-in type; built-in function / local class in assignment-like positions), "
                 "positions outside Class/Syntax.v as Python templates (c14.EXTRA_POSITIONS that hold any expression: f-string in an implicit concatenation, yield from, except T as e, every `if` of a comprehension, typed defaults of a nested def, bases / keywords of a nested class, match guard, slices, await ...) x (local class, from-import) x (bare, hidden in an argument), decided against the ast.Call nodes of Python's own syntax tree, "
                 "subscripted forms (class K(Base[T]) x import form x arity, x: mod.Container[T] x place x import form), parser position table (find-path), "
@@ -1200,7 +1400,7 @@ def main(tier):
                 "CLI runs (default, [cbo] thresholds, include_builtins = true, include_imports = false, [analysis] exclude_patterns matching class names); "
                 "distinct = distinct source texts",
         "input_distribution": dict(dist, position_table_probes=n_table, python_template_positions=n_extra, metamorphic_relations=n_meta, e2e_classes=n_e2e, subscript_forms=n_gen,
-                                   multifile_projects=len(projs), multifile_classes_checked=n_mf),
+                                   multifile_projects=len(projs), multifile_classes_checked=n_mf, samename_groups=len(sn_groups), samename_permutation_disagreements=n_perm_bad),
         "known_finding_cases": n_known,
         "model_mismatches": n_tie,
         "disagreements_checked": n_viol + n_tie + n_known,
@@ -1208,5 +1408,6 @@ def main(tier):
     ck.trusted += ["Coq 8.16.1 kernel, vm_compute for model evaluation", "translator /verif/translator/gen_class.go (walked fields, built-in tables, flags, risk comparisons)",
                    "tree-sitter and its Python grammar (the parser model Class/Syntax.v:pos_path is checked against ast_builder.go per position, not proved)",
                    "hand-written model Class/CBO.v of internal/analyzer/cbo.go on the class-level syntax; harness/classgen.py pretty-printer (one template per position)",
+                   "same-named defs: a helper nested in a method / a method of a nested class is handed to Class/CBO.v as a method of the class itself (c13.py:sn_unit_members)",
                    "the container of a generic annotation (List[...], Dict[...]) is read as a typing construct, not as a coupled class"]
     ck.finish(assumptions=["classes are expressed in the class-level syntax of Class/Syntax.v; exclude patterns empty (as `pyscn analyze` passes them)"])
